@@ -107,7 +107,13 @@ def loss_case(driver, seed, part, i, res, base_times):
     restore = r.choice([None, 0.4, 2.5, 10.0])
     second = r.random() < 0.25 and restore is not None
     picker = simlib.Picker(r)
-    sim = simlib.Sim(driver, picker, hid_kwargs={"reconnect_interval": interval, "reconnect_limit": limit})
+    # every third case addresses the device through a glob pattern: the node vanishes from the directory while unplugged
+    use_glob = i % 3 == 2
+    hk = {"reconnect_interval": interval, "reconnect_limit": limit}
+    if use_glob:
+        hk["glob"] = True
+        res.hit("glob_path_cases")
+    sim = simlib.Sim(driver, picker, hid_kwargs=hk)
     outcomes = {}
     frames_t = {}
     tstate = {"detect": None}
